@@ -37,6 +37,9 @@ def schema(name, fields, cls=None):
     return s
 
 
+STR = Schema('#str', {})  # element "schema" of a symbolic list of STRINGS (elems: Array Int -> String); no heap objects involved
+
+
 class SymObj:
     def __init__(self, id_term, schema, heap=None):
         self.id = id_term
@@ -60,6 +63,8 @@ class SymList:
         return SymList(self.elems, self.length, self.schema, heap)
 
     def at(self, pos):
+        if self.schema is STR:
+            return Sym('str', z3.Select(self.elems, pos))
         return SymObj(z3.Select(self.elems, pos), self.schema, self.heap)
 
 
@@ -254,7 +259,13 @@ def lst_append(I, L, obj):
 
 def _append(I, L, obj):
     p = I.p
-    x = obj_id(p, obj)
+    if L.schema is STR:
+        obj = I.need(obj)
+        if isinstance(obj, Opt) or not (isinstance(obj, str) or (isinstance(obj, Sym) and obj.kind == 'str')):
+            raise Unsupported('append of a non-string to a symbolic list of strings')
+        x = lift(obj)
+    else:
+        x = obj_id(p, obj)
     L.elems = z3.Store(L.elems, L.length, x)
     L.length = L.length + 1
 
